@@ -400,6 +400,54 @@ def rule_judgments(ctx):
     ctx.floor(rule, "children of formers handed to a judgment", n, 60)
 
 
+def rule_expected_type(ctx):
+    """analysis mode: the expected annotation is consumed or the arm is an error"""
+    rule = "expected-type-consumed"
+    facts = ctx.facts
+    ctx.rule(rule, "in the term and pattern judgments, every `Switch::Ana(expected)` arm either uses the expected annotation it binds "
+                   "(compares it, forwards it to a sub-judgment or to the query judgment), or reports a type error, or matches the "
+                   "payload-less `Set`: no former silently ignores the type it is checked against")
+    n = 0
+    for suffix, tyname in (("bitter::syntax::TermId> as zydeco_statics::check::Tyck<'a>>::tyck_inner_k", "Term<"),
+                           ("bitter::syntax::PatId> as zydeco_statics::check::Tyck<'a>>::tyck_inner_k", "Pattern")):
+        fn = next((p for p in facts.bodies() if p.endswith(suffix)), None)
+        if fn is None:
+            ctx.anchor_lost(rule, "%s not found" % suffix)
+            continue
+        h = ctx.need_hir(rule, fn)
+        loc = facts.bodies()[fn]["loc"]
+        ms = [m for m in H.walk(h["body"]) if H.kind(m) == "Match" and not m.get("src") and ("bitter::syntax::" + tyname) in (m.get("scrut_ty") or "")]
+        if not ms:
+            ctx.anchor_lost(rule, "%s: dispatch on the former not found" % fn)
+            continue
+        big = max(ms, key=lambda m: len(m["arms"]))
+        seen = {}
+        for a in big["arms"]:
+            former = A.pat_shape(a["pat"])
+            for m in H.walk(a["body"]):
+                if not (H.kind(m) == "Match" and not m.get("src") and "check::Switch<" in (m.get("scrut_ty") or "")):
+                    continue
+                for ia in m["arms"]:
+                    vs = [v.split("::")[-1] for v in H.pat_variants(ia["pat"])]
+                    if "Ana" not in vs:
+                        continue
+                    n += 1
+                    shape = A.pat_shape(ia["pat"])
+                    binds = H.pat_bindings(ia["pat"])
+                    used = [b for b in binds if any(H.kind(u) == "Path" and u.get("res", {}).get("local") == b["local"] for u in H.walk(ia["body"]))]
+                    is_err = any(c.endswith("::err_k") or c.endswith("::err") for _, c in H.calls(ia["body"])) and H.diverges(ia["body"]) \
+                        or (any(c.endswith("::err_k") for _, c in H.calls(ia["body"])) and len([1 for _ in H.calls(ia["body"])]) <= 6)
+                    only_set = "Set" in vs and set(vs) <= {"Ana", "Set"}
+                    ok = bool(used) or is_err or only_set
+                    key = "%s:%s:%s" % ("term" if tyname == "Term<" else "pattern", former, shape)
+                    seen[key] = seen.get(key, 0) + 1
+                    inst = key if seen[key] == 1 else "%s#%d" % (key, seen[key])
+                    ctx.check(ok, rule, inst, "the %s judgment of %s, arm %s: the expected annotation is neither used nor is the arm an error: "
+                              "this former is accepted against ANY expected type" % ("term" if tyname == "Term<" else "pattern", former, shape),
+                              [loc[0], ia["ln"]], detail={"former": former, "switch_arm": shape, "consumes": "binding" if used else "error" if is_err else "Set"})
+    ctx.floor(rule, "analysis-mode arms", n, 60)
+
+
 def run(ctx):
     rule_gates(ctx)
     rule_err(ctx)
@@ -408,6 +456,7 @@ def run(ctx):
     rule_link(ctx)
     rule_holes(ctx)
     rule_judgments(ctx)
+    rule_expected_type(ctx)
     ctx.assume("the typing rules themselves (progress/preservation), the coverage algorithm (C04) and termination of "
                "normalisation are NOT decided")
     ctx.assume("ResultKont errors are already recorded in Tycker::errors (append-only, checked), so dropping a ResultKont cannot "
